@@ -209,6 +209,22 @@ func init() {
 	reg(zz+"FloatStr", func(fr *frame, args []Value) Value {
 		return Str{tag: &StrTag{isFloat: true, fpOf: args[0], fmtC: 'f', prec: -1}}
 	})
+	reg(zz+"AbstractFloatText", func(fr *frame, args []Value) Value {
+		fr.w.absFloatText = liftBool(args[0]) == trueT
+		return nil
+	})
+	reg(zz+"AbstractFloatArith", func(fr *frame, args []Value) Value {
+		fr.w.absFloatArith = liftBool(args[0]) == trueT
+		return nil
+	})
+	reg(zz+"OpaqueParseFloat", func(fr *frame, args []Value) Value {
+		fr.w.opaqueParseFloat = liftBool(args[0]) == trueT
+		return nil
+	})
+	reg(zz+"LoopBound", func(fr *frame, args []Value) Value {
+		fr.w.loopBound = int(fr.w.concInt(args[0]))
+		return nil
+	})
 	reg(zz+"MapOrder", func(fr *frame, args []Value) Value {
 		fr.w.mapOrderFork = liftBool(args[0]) == trueT
 		return nil
@@ -359,8 +375,8 @@ func init() {
 		if n, ok := a[0].(int64); ok {
 			return math.Pow10(int(n))
 		}
-		n := fr.w.concInt(a[0])
-		return math.Pow10(int(n))
+		fr.w.stub("math.Pow10 of a symbolic exponent: arbitrary float64 (over-approximation)")
+		return fr.w.path.freshFP()
 	})
 	reg("math.Mod", func(fr *frame, a []Value) Value {
 		x, xc := a[0].(float64)
@@ -609,6 +625,12 @@ func (w *Worker) ghostOut(s Str) {
 }
 
 func (w *Worker) fpUn(op string, x *Term) Value {
+	if x.op == "(_ to_fp 11 53)" && len(x.args) == 2 && x.args[1].op == "to_real" {
+		switch op {
+		case "floor", "ceil", "trunc", "round":
+			return x // the conversion of an integer is integral
+		}
+	}
 	switch op {
 	case "abs":
 		return tFP("fp.abs", SFP, x)
@@ -626,21 +648,59 @@ func (w *Worker) fpUn(op string, x *Term) Value {
 	panic(engineError{"fpUn " + op})
 }
 
-// opaqueFloatFn: an uninterpreted function of its arguments (same args => same result).
+// opaqueFloatFn: the result of a library float function that is not
+// interpreted: a fresh float64 variable per distinct argument tuple (the same
+// argument terms give the same result on a path). This over-approximates the
+// function (any float64 is possible); a counterexample that depends on it is
+// confirmed or refuted by the native replay.
 func (w *Worker) opaqueFloatFn(name string, args ...*Term) Value {
-	w.stub(name + " (uninterpreted)")
+	w.stub(name + " (uninterpreted: arbitrary float64 per distinct argument)")
 	p := w.path
-	uf := "uf_" + strings.ReplaceAll(name, ".", "_")
-	if !p.ufDeclared[uf] {
-		if p.ufDeclared == nil {
-			p.ufDeclared = map[string]bool{}
-		}
-		p.ufDeclared[uf] = true
-		sorts := make([]string, len(args))
-		for i := range args {
-			sorts[i] = SFP.String()
-		}
-		p.emit(fmt.Sprintf("(declare-fun %s (%s) %s)\n", uf, strings.Join(sorts, " "), SFP))
+	key := name
+	for _, a := range args {
+		h1, h2 := a.hash()
+		key += fmt.Sprintf("/%x.%x", h1, h2)
 	}
-	return tFP(uf, SFP, args...)
+	if p.opaque == nil {
+		p.opaque = map[string]*Term{}
+	}
+	if t, ok := p.opaque[key]; ok {
+		return t
+	}
+	t := p.freshFP()
+	p.opaque[key] = t
+	return t
+}
+
+// repeatCap: strings.Repeat results longer than this many copies are a
+// memory question, not a crash question; such paths end as "outside".
+const repeatCap = 3
+
+func init() {
+	intrinsics["strings.Repeat"] = func(fr *frame, a []Value) (Value, bool) {
+		w := fr.w
+		p := w.path
+		s := w.cells(a[0].(Str))
+		n := int64(len(s.b))
+		cnt := liftInt(a[1], ik64)
+		if p.Branch(tLt(cnt, intConst(0))) {
+			panic(targetPanic{v: Iface{t: types.Typ[types.String], v: mkStr("strings: negative Repeat count")}, where: "strings.Repeat"})
+		}
+		if n > 0 && p.Branch(tGt(cnt, intConst(math.MaxInt64/n))) {
+			panic(targetPanic{v: Iface{t: types.Typ[types.String], v: mkStr("strings: Repeat output length overflow")}, where: "strings.Repeat"})
+		}
+		if n == 0 {
+			return Str{}, true
+		}
+		if p.Branch(tGt(cnt, intConst(repeatCap))) {
+			w.stub("strings.Repeat with more than 3 copies: path ended (memory use is outside the claim)")
+			panic(pathEnd{"strings.Repeat beyond the cap"})
+		}
+		c := w.concInt(lowerIntAny(cnt))
+		out := make([]Value, 0, int(c)*int(n))
+		for i := int64(0); i < c; i++ {
+			out = append(out, s.b...)
+		}
+		return Str{b: out}, true
+	}
 }
